@@ -18,6 +18,9 @@ Next == FALSE /\ UNCHANGED x
 Spec == Init /\ [][Next]_x
 
 Sibling(a, b) == a.n = b.n /\ a.cm = b.cm /\ a.cv = b.cv
+KeyOf(c) == <<c.n, c.cm, c.cv>>
+Keys == {KeyOf(Claims[i]) : i \in 1..Len(Claims)}
+Group == [k \in Keys |-> {i \in 1..Len(Claims) : KeyOf(Claims[i]) = k}]     \* evaluated once (constant)
 
 Bad(a, b) ==
   IF ~Sibling(a, b) THEN {}
@@ -29,7 +32,7 @@ Bad(a, b) ==
           THEN {"C07.periodic_not_better_than_disk"} ELSE {})
 
 Verdict ==
-  LET bad == {<<y, c>> \in (1..Len(Claims)) \X {"C07.more_disk_no_worse",
+  LET bad == {<<y, c>> \in Group[KeyOf(Claims[x])] \X {"C07.more_disk_no_worse",
                   "C07.disk_no_worse_than_revolve", "C07.periodic_not_better_than_disk"} :
                 c \in Bad(Claims[x], Claims[y])}
   IN bad # {} => PrintT(<<"@V", x, bad, "V@">>)
